@@ -99,6 +99,11 @@ def verify_der(pub_hex, sig, digest):
         return False
 
 
+def tree(root):
+    """every file below root (full paths)"""
+    return {os.path.join(d, f) for d, _, fs in os.walk(root) for f in fs}
+
+
 def run_case(acc, cseed, tmpdir, state):
     import ecdsa
     import signapp
@@ -108,12 +113,23 @@ def run_case(acc, cseed, tmpdir, state):
     case = {"seed": cseed}
     nimg = rng.randint(1, 4)
     images = []
+    # file naming: distinct names in one directory, or the same name in a directory per
+    # image (ui/app.hex, signer/app.hex ...), or names that are prefixes of each other
+    naming = rng.choice(["distinct", "distinct", "same-name-other-dir", "prefix-names"])
     for i in range(nimg):
         areas = ihex.gen_areas(rng)
-        p = os.path.join(tmpdir, "app%d.hex" % i)
+        if naming == "same-name-other-dir":
+            d = os.path.join(tmpdir, "d%d" % i)
+            os.makedirs(d, exist_ok=True)
+            p = os.path.join(d, "app.hex")
+        elif naming == "prefix-names":
+            p = os.path.join(tmpdir, "app" + ".hex" * (i + 1))
+        else:
+            p = os.path.join(tmpdir, "app%d.hex" % i)
+        acc.count("naming_" + naming)
         shuffled = rng.random() < 0.6
         ihex.write(rng, areas, p, shuffle=shuffled)
-        p2 = os.path.join(tmpdir, "app%d-compact.hex" % i)
+        p2 = os.path.join(tmpdir, "compact-app%d.hex" % i)
         ihex.write_compact(rng, areas, p2)
         want = ihex.expected_hash(areas)
         images.append((p, areas, want))
@@ -181,7 +197,7 @@ def run_case(acc, cseed, tmpdir, state):
         return k
     ecdsa.SigningKey.generate = recording_generate
     del _opened[:]
-    before = set(os.listdir(tmpdir))
+    before = tree(tmpdir)
     try:
         sep = rng.choice([",", ", ", " ,"])
         code, out = run_main(signonetime.main,
@@ -199,7 +215,7 @@ def run_case(acc, cseed, tmpdir, state):
         return
     sk = generated[0]
     want_files = sorted([pubp] + [im[0] + ".sig" for im in images])
-    new_files = sorted(os.path.join(tmpdir, f) for f in set(os.listdir(tmpdir)) - before)
+    new_files = sorted(tree(tmpdir) - before)
     if written != want_files or sorted(set(new_files) | set()) != want_files:
         acc.violation("signonetime-wrote-other-files",
                       {"opened_for_writing": written, "new": new_files, "want": want_files},
@@ -252,7 +268,11 @@ def run_shard(spec, acc):
         for i in range(spec["n"]):
             run_case(acc, rng.getrandbits(48), tmpdir, state)
             for f in os.listdir(tmpdir):
-                os.unlink(os.path.join(tmpdir, f))
+                f = os.path.join(tmpdir, f)
+                if os.path.isdir(f):
+                    shutil.rmtree(f)
+                else:
+                    os.unlink(f)
     finally:
         shutil.rmtree(tmpdir, ignore_errors=True)
 
